@@ -2,6 +2,8 @@ package main
 
 import (
 	"fmt"
+	"go/token"
+	"go/types"
 	"strings"
 
 	"golang.org/x/tools/go/ssa"
@@ -12,12 +14,14 @@ func init() {
 		ID: "C05",
 		Explanation: "Decided: the cursor's movement functions treat 'landed on an empty leaf' and 'ran off the end' on every path — after every raw descent (goToFirstElementOnTheStack / last / seek) no return is reached before the emptiness of the leaf (or a one-level stack) was tested; next and prev agree on re-positioning and on leaving a usable position when exhausted; " +
 			"every loop driven by a cursor advance has an exit that depends on the key the advance returned (a loop that ignores exhaustion cannot terminate once every leaf is empty); ordering rests on lower-bound predicates over bytes.Compare and the branch-search step-back (tabulated). " +
+			"Nested buckets are reported with a nil value: every return of a value taken from a raw cursor step is guarded by a bucket-bit test of that step's own flags (R5). " +
 			"NOT decided: that First/Next/Prev/Seek agree with a sorted list in general; termination beyond the exhaustion discipline (no termination prover is available).",
 		Run: func(c *Ctx) {
 			c05R1(c, "C05.R1")
 			c05R2(c, "C05.R2")
 			c05R3(c, "C05.R3")
 			ruleKeyOrderPredicates(c, "C05.R4")
+			c05R5(c, "C05.R5")
 		},
 	})
 }
@@ -204,4 +208,179 @@ func loopRole(fn *ssa.Function, hdr *ssa.BasicBlock) string {
 		return hdr.Comment
 	}
 	return strings.Join(names, "+")
+}
+
+// c05R5: "nested buckets appear with a nil value". The raw movement functions (seek / next / prev /
+// keyValue) return (key, value, flags); whenever the value component leaves a function with another
+// signature through a return, it must be masked: on the path to that return the flags component OF THE
+// SAME raw call was tested for the bucket bit and found clear (or the returned value is the nil constant).
+func c05R5(c *Ctx, id string) {
+	c.rule(id, "nested-bucket-value-masked", 6, func() {
+		isRaw := func(sig *types.Signature) bool {
+			r := sig.Results()
+			if r.Len() != 3 {
+				return false
+			}
+			isBytes := func(t types.Type) bool {
+				s, ok := t.Underlying().(*types.Slice)
+				return ok && types.Identical(s.Elem(), types.Typ[types.Byte])
+			}
+			b, ok := r.At(2).Type().Underlying().(*types.Basic)
+			return isBytes(r.At(0).Type()) && isBytes(r.At(1).Type()) && ok && b.Kind() == types.Uint32
+		}
+		for _, fn := range c.P.FnsIn(rootPkg) {
+			if isRaw(fn.Signature) || fn.Blocks == nil {
+				continue
+			}
+			// value components of raw calls in this function
+			rawVals := map[ssa.Value]*ssa.Call{}
+			eachInstr(fn, func(in ssa.Instruction) {
+				ex, ok := in.(*ssa.Extract)
+				if !ok || ex.Index != 1 {
+					return
+				}
+				call, ok := ex.Tuple.(*ssa.Call)
+				if ok && isRaw(call.Call.Signature()) {
+					rawVals[ex] = call
+				}
+			})
+			if len(rawVals) == 0 {
+				continue
+			}
+			for _, ret := range returnsOf(fn) {
+				for i := range ret.Results {
+					v := returnedValue(ret, i)
+					if !derivesFromRaw(v, rawVals, map[ssa.Value]bool{}) {
+						continue
+					}
+					ok, why := maskedValue(v, ret.Block(), map[ssa.Value]bool{})
+					c.check(fmt.Sprintf("%s:%s:return@%s", id, strings.TrimPrefix(shortFn(fn), "bbolt."), retRole(fn, ret)), fn, ret.Pos(),
+						"a value taken from a raw cursor step is returned only where the flags of that same step were tested and the bucket bit found clear (nested buckets are reported with a nil value)", ok, why)
+				}
+			}
+		}
+	})
+}
+
+// retRole names a return by its ordinal among the function's returns in block order (stable under edits elsewhere).
+func retRole(fn *ssa.Function, ret *ssa.Return) string {
+	n := 0
+	for _, r := range returnsOf(fn) {
+		if r == ret {
+			return fmt.Sprintf("%d", n)
+		}
+		n++
+	}
+	return "?"
+}
+
+func derivesFromRaw(v ssa.Value, raw map[ssa.Value]*ssa.Call, seen map[ssa.Value]bool) bool {
+	if seen[v] {
+		return false
+	}
+	seen[v] = true
+	if _, ok := raw[v]; ok {
+		return true
+	}
+	if ph, ok := v.(*ssa.Phi); ok {
+		for _, e := range ph.Edges {
+			if derivesFromRaw(e, raw, seen) {
+				return true
+			}
+		}
+	}
+	return false
+}
+
+// bucketBitTest recognises `(f & 1) != 0` / `== 0` and returns f and the successor index on which the bit is clear.
+func bucketBitTest(iff *ssa.If) (ssa.Value, int) {
+	bo, ok := iff.Cond.(*ssa.BinOp)
+	if !ok || (bo.Op != token.NEQ && bo.Op != token.EQL) {
+		return nil, 0
+	}
+	and, ok := stripConv(bo.X).(*ssa.BinOp)
+	z, isK := constInt(bo.Y)
+	if !ok || and.Op != token.AND || !isK || z != 0 {
+		return nil, 0
+	}
+	var f ssa.Value
+	if k, isC := constInt(and.Y); isC && k == 1 {
+		f = and.X
+	} else if k, isC := constInt(and.X); isC && k == 1 {
+		f = and.Y
+	}
+	if f == nil {
+		return nil, 0
+	}
+	if bo.Op == token.NEQ {
+		return f, 1
+	}
+	return f, 0
+}
+
+// parallelFlags: f is the flags component of exactly the raw step(s) v is the value component of.
+func parallelFlags(v, f ssa.Value, seen map[[2]ssa.Value]bool) bool {
+	k := [2]ssa.Value{v, f}
+	if seen[k] {
+		return true
+	}
+	seen[k] = true
+	if isNilConst(v) {
+		return true
+	}
+	if ev, ok := v.(*ssa.Extract); ok {
+		ef, ok := f.(*ssa.Extract)
+		return ok && ef.Tuple == ev.Tuple && ev.Index == 1 && ef.Index == 2
+	}
+	pv, ok1 := v.(*ssa.Phi)
+	pf, ok2 := f.(*ssa.Phi)
+	if ok1 && ok2 && pv.Block() == pf.Block() {
+		for i := range pv.Edges {
+			if !parallelFlags(pv.Edges[i], pf.Edges[i], seen) {
+				return false
+			}
+		}
+		return true
+	}
+	return false
+}
+
+func maskedValue(v ssa.Value, at *ssa.BasicBlock, seen map[ssa.Value]bool) (bool, string) {
+	if isNilConst(v) {
+		return true, ""
+	}
+	for b := at; b != nil; b = b.Idom() {
+		d := b.Idom()
+		if d == nil {
+			break
+		}
+		iff, ok := d.Instrs[len(d.Instrs)-1].(*ssa.If)
+		if !ok {
+			continue
+		}
+		f, clear := bucketBitTest(iff)
+		if f == nil || d.Succs[0] == d.Succs[1] {
+			continue
+		}
+		if blockDominatedByEdge(d, d.Succs[clear], at) && parallelFlags(v, f, map[[2]ssa.Value]bool{}) {
+			return true, ""
+		}
+	}
+	if ph, ok := v.(*ssa.Phi); ok && !seen[v] {
+		seen[v] = true
+		for i, e := range ph.Edges {
+			// the edge itself may be the bit-clear edge of the test (`if bit set { v = nil }` falls through on clear)
+			pred := ph.Block().Preds[i]
+			if iff, isIf := pred.Instrs[len(pred.Instrs)-1].(*ssa.If); isIf && pred.Succs[0] != pred.Succs[1] {
+				if f, clear := bucketBitTest(iff); f != nil && pred.Succs[clear] == ph.Block() && parallelFlags(e, f, map[[2]ssa.Value]bool{}) {
+					continue
+				}
+			}
+			if ok, why := maskedValue(e, ph.Block().Preds[i], seen); !ok {
+				return false, why
+			}
+		}
+		return true, ""
+	}
+	return false, fmt.Sprintf("the value %s reaches the return without a bucket-bit test of the flags that came with it: a nested bucket's header bytes would be handed out as a value", v.Name())
 }
